@@ -9,7 +9,7 @@ script) is the run in which the OS never splits a transfer.  `noHard os.sc` = th
 counts and `EINTR`s.  Statement form: `run loop script = run loop OS.full` on everything the caller can
 observe, plus "success ⇒ the whole transfer happened" for *arbitrary* scripts (hard errors included).
 -/
-import Sqfs.Proofs.IoLoops
+import Sqfs.Proofs.IoStream
 namespace Sqfs.C12
 open Sqfs.IoLoops Sqfs.IoLoops.Spec
 
@@ -139,6 +139,78 @@ theorem write_all_never_short : ∀ (ops : List OOp) (st : OStream) (idx : Nat) 
     | oob => simp
     | fuel => simp at h1
 
+/-! ### the buffered file istream and its clients -/
+
+/-- **`istream_bytes`.** For every buffer size `B > 0`, every file content, every client history (any mix of
+`get_buffered_data(want)` with any `want`, `advance_buffer(count)` with any `count`, `sqfs_istream_read`, `skip`,
+`splice`, `istream_get_line`, `record_to_memory`) and every OS script of short counts and `EINTR`s: what the
+client observes — every status and every window `get_buffered_data` exposes, byte for byte — is what the *ideal
+window stream* over the file content shows (`Spec.Ideal`: `pos` bytes consumed, the next `avail` bytes of the
+file visible; no buffer, no OS).  The bytes delivered are therefore the file's bytes in order, whatever the
+chunking. -/
+theorem istream_bytes (B : Nat) (hB : 0 < B) (data : Bytes) (ops : List Op) (o : OStream) (ln : Nat) (os : OS)
+    (h : noHard os.sc = true) :
+    (runOps (fileStream B) ⟨IStream.init data, o, ln⟩ ops os).1 =
+      (runOps (idealStream B data) ⟨⟨0, 0⟩, o, ln⟩ ops OS.full).1 ∧
+    (runOps (fileStream B) ⟨IStream.init data, o, ln⟩ ops os).2.1.o =
+      (runOps (idealStream B data) ⟨⟨0, 0⟩, o, ln⟩ ops OS.full).2.1.o ∧
+    (runOps (fileStream B) ⟨IStream.init data, o, ln⟩ ops os).2.1.ln =
+      (runOps (idealStream B data) ⟨⟨0, 0⟩, o, ln⟩ ops OS.full).2.1.ln := by
+  obtain ⟨h1, _, h2, h3⟩ := runOps_sim (file_sim B hB data) ops ⟨IStream.init data, o, ln⟩ ⟨⟨0, 0⟩, o, ln⟩ os OS.full
+    ⟨rel_init B data, rfl, rfl⟩ h (by simp [noHard, OS.full])
+  exact ⟨h1, h2, h3⟩
+
+/-- The statement in the form "run under the script = run when every call completes in full": observations, the
+spliced output and the line counter of any client history are the same. -/
+theorem client_history_script_independent (B : Nat) (hB : 0 < B) (data : Bytes) (ops : List Op) (o : OStream)
+    (ln : Nat) (os : OS) (h : noHard os.sc = true) :
+    (runOps (fileStream B) ⟨IStream.init data, o, ln⟩ ops os).1 =
+      (runOps (fileStream B) ⟨IStream.init data, o, ln⟩ ops OS.full).1 ∧
+    (runOps (fileStream B) ⟨IStream.init data, o, ln⟩ ops os).2.1.o =
+      (runOps (fileStream B) ⟨IStream.init data, o, ln⟩ ops OS.full).2.1.o ∧
+    (runOps (fileStream B) ⟨IStream.init data, o, ln⟩ ops os).2.1.ln =
+      (runOps (fileStream B) ⟨IStream.init data, o, ln⟩ ops OS.full).2.1.ln := by
+  obtain ⟨a1, a2, a3⟩ := istream_bytes B hB data ops o ln os h
+  obtain ⟨b1, b2, b3⟩ := istream_bytes B hB data ops o ln OS.full (by simp [noHard, OS.full])
+  exact ⟨a1.trans b1.symm, a2.trans b2.symm, a3.trans b3.symm⟩
+
+/-- **`read_skip_splice_spec`** (script independence, from any reachable stream state): `sqfs_istream_read`,
+`sqfs_istream_skip` and `sqfs_istream_splice` return the same status/bytes/count and leave the same output as
+over the ideal window stream. -/
+theorem read_skip_splice_spec (B : Nat) (hB : 0 < B) (data : Bytes) (s : IStream) (t : Ideal) (hr : Rel B data s t)
+    (o : OStream) (size : Nat) (os : OS) (h : noHard os.sc = true) :
+    (istreamRead (fileStream B) s size os).1 = (istreamRead (idealStream B data) t size OS.full).1 ∧
+    (istreamSkip (fileStream B) s size os).1 = (istreamSkip (idealStream B data) t size OS.full).1 ∧
+    (istreamSplice (fileStream B) s o size os).1 = (istreamSplice (idealStream B data) t o size OS.full).1 ∧
+    (istreamSplice (fileStream B) s o size os).2.2.1 = (istreamSplice (idealStream B data) t o size OS.full).2.2.1 := by
+  have hf : noHard OS.full.sc = true := by simp [noHard, OS.full]
+  obtain ⟨_, _, h1, _⟩ := istreamReadLoop_sim (file_sim B hB data)
+    ((if size > 0x7FFFFFFF then 0x7FFFFFFF else size) + 1) s t (if size > 0x7FFFFFFF then 0x7FFFFFFF else size) [] os OS.full hr h hf
+  obtain ⟨_, _, h2, _⟩ := istreamSkipLoop_sim (file_sim B hB data) (size + 1) s t size os OS.full hr h hf
+  obtain ⟨_, _, h3, _⟩ := istreamSpliceLoop_sim (file_sim B hB data)
+    ((if size > 0x7FFFFFFF then 0x7FFFFFFF else size) + 1) s t o (if size > 0x7FFFFFFF then 0x7FFFFFFF else size) 0 os OS.full hr h hf
+  simp only [istreamRead, istreamSkip, istreamSplice, h1, h2, h3, and_self]
+
+/-- **`get_line_chunking_independent`**: from any reachable stream state, with any pending partial line `acc` and
+any flags, `istream_get_line` returns the same line (or end-of-file) and the same line counter for every OS
+chunking of the input as over the ideal window stream. -/
+theorem get_line_chunking_independent (B : Nat) (hB : 0 < B) (data : Bytes) (s : IStream) (t : Ideal)
+    (hr : Rel B data s t) (flags fuel : Nat) (acc : Bytes) (ln : Nat) (os : OS) (h : noHard os.sc = true) :
+    (getLineLoop (fileStream B) flags fuel s acc ln os).1 =
+      (getLineLoop (idealStream B data) flags fuel t acc ln OS.full).1 ∧
+    (getLineLoop (fileStream B) flags fuel s acc ln os).2.2.1 =
+      (getLineLoop (idealStream B data) flags fuel t acc ln OS.full).2.2.1 := by
+  obtain ⟨_, _, h1, _⟩ := getLineLoop_sim (file_sim B hB data) flags fuel s t acc ln os OS.full hr h
+    (by simp [noHard, OS.full])
+  simp only [h1, and_self]
+
+/-- **`record_to_memory_spec`** (script independence): same record (or NULL) for every OS chunking. -/
+theorem record_to_memory_spec (B : Nat) (hB : 0 < B) (data : Bytes) (s : IStream) (t : Ideal) (hr : Rel B data s t)
+    (size : Nat) (os : OS) (h : noHard os.sc = true) :
+    (recordToMemory (fileStream B) s size os).1 = (recordToMemory (idealStream B data) t size OS.full).1 := by
+  obtain ⟨_, _, h1, _⟩ := recordToMemory_sim (file_sim B hB data) s t size os OS.full hr h (by simp [noHard, OS.full])
+  simp only [h1]
+
 /-! ### non-vacuity: concrete scripts with short counts, `EINTR` bursts and hard errors -/
 
 -- 5 bytes at offset 2 in three pieces with EINTRs in between
@@ -157,5 +229,12 @@ example : (writeAt [0,1,2,3,4] 5 1 [170,187,204] ⟨[.part 0, .zero], []⟩).1 =
 example : (runOOps 0 ⟨[], 0, 0, false⟩ [.data [1,2], .hole 5, .data [3], .flush] ⟨[.part 0, .eintr], []⟩).2.1.out =
     (runOOps 0 ⟨[], 0, 0, true⟩ [.data [1,2], .hole 5, .data [3], .flush] ⟨[.part 0, .eintr, .part 2], []⟩).2.1.out := by decide
 example : noHard [.part 0, .eintr, .part 1, .eintr, .eintr] = true := by decide
+-- "ab\ncd\r\n\ne" through a 4-byte buffer fed one or two bytes at a time, with EINTRs: window, read, three lines, EOF
+example : (runOps (fileStream 4) ⟨IStream.init [97,98,10,99,100,13,10,10,101], ⟨[], 0, 0, false⟩, 0⟩
+    [.get 0, .adv 1, .get 3, .read 2, .line 7, .line 7, .line 7] ⟨[.part 0, .eintr, .part 0, .part 1], []⟩).1 =
+    [.get .ok [97,98,10,99], .adv, .get .ok [98,10,99], .read (.n [98,10]), .line (.line [99,100]) 0,
+     .line (.line [101]) 1, .line .eof 1] := by decide
+-- the initial state is related to the ideal stream, so the `Rel` hypotheses above are satisfiable
+example : Rel 4 [1,2,3] (IStream.init [1,2,3]) ⟨0, 0⟩ := rel_init 4 [1,2,3]
 
 end Sqfs.C12
